@@ -1,5 +1,6 @@
 import Astria.Merkle.Theorems
 import Astria.Merkle.Index
+import Astria.Composer.Theorems
 /-
   The property theorems, and nothing else.  One block per property of
   /verif/properties.jsonl; helper lemmas live in the area modules.  Statements here are the
@@ -43,5 +44,44 @@ theorem C08_original_counterexamples :
     checkRawOriginal ⟨0, 2 ^ 63, 1⟩ = .panic ∧
     (checkRawOriginal ⟨32, 0, 1⟩ = .value (.ok ()) ∧ completeParent 0 1 = .noParent) :=
   ⟨checkRawOriginal_panics, verify_total_counterexample⟩
+
+
+/-! ## C16 — Composer bundles each accepted transaction once, in order, within the size limit -/
+section C16
+open Astria.Composer
+
+/-- For every sequence of pushes / finished-queue pops / timer pre-emptions, every maximum and
+    every queue capacity: the emitted bundles, then the finished queue, then the current bundle,
+    flattened, are exactly the accepted actions in acceptance order (so each accepted action is in
+    exactly one bundle and order is preserved), and every bundle's accounted size is the sum of
+    its actions' encoded lengths and at most the maximum. -/
+theorem C16_exactly_once_in_order_within_limit (max cap : Nat) (ops : List Op) :
+    let r := run max cap ops
+    allActions r.emitted ++ allActions r.f.finished ++ r.f.curr.actions = r.accepted ∧
+    (∀ b ∈ r.emitted ++ r.f.finished ++ [r.f.curr], b.size = sumLen b.actions ∧ b.size ≤ max) := by
+  intro r
+  have h := inv_run max cap ops
+  have hm := run_max max cap ops
+  refine ⟨h.order, ?_⟩
+  intro b hb
+  simp only [List.mem_append, List.mem_singleton] at hb
+  rcases hb with (hb | hb) | hb
+  · have := h.emittedWF b hb; rw [hm] at this; exact this
+  · have := h.finishedWF b hb; rw [hm] at this; exact this
+  · subst hb; have := h.currWF; rw [hm] at this; exact this
+
+/-- An action is refused only when it alone exceeds the maximum, or it does not fit into the
+    current bundle and the finished queue is full; a refused action changes nothing. -/
+theorem C16_refusal (f : Factory) (a : Action) :
+    ((f.tryPush a).2 ≠ .ok → (f.tryPush a).1 = f) ∧
+    ((f.tryPush a).2 ≠ .ok ↔ (a.len > f.max ∨ (f.curr.size + a.len > f.max ∧ f.finished.length ≥ f.cap))) :=
+  tryPush_refusal f a
+
+/-- Non-vacuity: a run that accepts, flushes, refuses and emits. -/
+example :
+    let r := run 10 1 [.push ⟨1, 6⟩, .push ⟨2, 6⟩, .push ⟨3, 6⟩, .push ⟨4, 11⟩, .popFinished, .popNow]
+    r.accepted = [⟨1, 6⟩, ⟨2, 6⟩] ∧ r.emitted.length = 2 := by decide
+
+end C16
 
 end Astria
